@@ -937,3 +937,8 @@ func specMapHas(v any, key string, val Object) bool {
 	x, ok := m[key]
 	return ok && x == val
 }
+
+func specPoolHas(v *vmPool, vm *VM) bool {
+	_, ok := v.vms[vm]
+	return ok
+}
